@@ -7,7 +7,7 @@ func init() {
 		Cfgs: []cfgSpec{
 			{Name: "engine-like", Cfg: "clients=3,oneplanner", Gating: true, Share: 3},
 			{Name: "sequential", Cfg: "clients=1", Gating: true, Share: 2},
-			{Name: "free-callers", Cfg: "clients=3", Gating: false, Share: 1},
+			{Name: "free-callers", Cfg: "clients=3", Gating: true, Share: 2},
 		},
 		QuickSecs: 40, ThoroughSecs: 600,
 		Rule: "one case = one generated file store (1-12 generations, 1-4 files each, levels by sequence, sizes around 2 GB, block counts around 1000/aggressive, tombstones, cold duration) " +
